@@ -11,6 +11,7 @@ use tmelcrypt::HashVal;
 mod util;
 use util::*;
 mod c20;
+mod batch;
 
 thread_local! {
     pub static LAST_PANIC: std::cell::RefCell<String> = Default::default();
@@ -67,6 +68,7 @@ fn main() {
             "c17" => c17(r),
             "c20_recount" => c20::c20_recount(r),
             "c20_ops" => c20::c20_ops(r),
+            "batch" => batch::batch(r),
             other => json!({"error": format!("unknown kind {other}")}),
         };
         outs.push(out);
